@@ -184,7 +184,7 @@ BASE_NS = {
 
 
 def evaluate(s, ns):
-    full = dict(BASE_NS)
+    full = dict(CONC_NS if MODE == "conc" else BASE_NS)
     full.update(ns)
     try:
         full["__builtins__"] = {"len": len, "range": range, "int": int, "abs": abs, "sum": sum, "min": min,
@@ -198,6 +198,104 @@ def evaluate(s, ns):
 
 class ContractError(Exception):
     pass
+
+
+class Borderline(Exception):
+    """concrete evaluation hit a comparison too close to call in floating point"""
+
+
+# ------------------------------------------------- concrete (replay) interpretation of the same clauses
+MODE = "sym"
+from fractions import Fraction as _Fr
+import math as _math
+EQ_TOL = 1e-6
+BORDER = 1e-9
+
+
+def _fr(x):
+    if isinstance(x, bool):
+        return int(x)
+    if isinstance(x, (int, _Fr)):
+        return x
+    return _Fr(float(x))
+
+
+def _close(a, b, tol):
+    a, b = _fr(a), _fr(b)
+    return abs(a - b) <= _Fr(tol) * max(1, abs(a), abs(b))
+
+
+def _ceq(a, b):
+    if isinstance(a, bool) or isinstance(b, bool):
+        return bool(a) == bool(b)
+    if isinstance(a, int) and isinstance(b, int):
+        return a == b
+    return _close(a, b, EQ_TOL)
+
+
+def _cord(op):
+    def f(a, b):
+        a, b = _fr(a), _fr(b)
+        if not (isinstance(a, int) and isinstance(b, int)) and a != b and _close(a, b, BORDER):
+            raise Borderline()
+        return {"<": a < b, "<=": a <= b, ">": a > b, ">=": a >= b}[op]
+    return f
+
+
+def _crne(x):
+    x = _fr(x)
+    f = _math.floor(x + _Fr(1, 2))
+    if f == x + _Fr(1, 2) and f % 2 != 0:
+        f -= 1
+    return f
+
+
+def _ctdiv(a, b):
+    q = abs(a) // abs(b)
+    return q if (a >= 0) == (b >= 0) else -q
+
+
+def _crsum(name, n, f, lo=0, sort="int"):
+    t = 0
+    for q in range(lo, n):
+        t = t + _fr(f(q))
+    return t
+
+
+CONC_NS = {
+    "And_": lambda *xs: all(bool(x) for x in xs), "Or_": lambda *xs: any(bool(x) for x in xs),
+    "Not_": lambda x: not x, "If_": lambda c, a, b: a if c else b, "ite": lambda c, a, b: a if c else b,
+    "eq_": _ceq, "ne_": lambda a, b: not _ceq(a, b),
+    "lt_": _cord("<"), "le_": _cord("<="), "gt_": _cord(">"), "ge_": _cord(">="),
+    "rdiv_": lambda a, b: _Fr(_fr(a)) / _fr(b), "fdiv_": lambda a, b: a // b, "mod_": lambda a, b: a % b,
+    "pow_": lambda a, b: a ** b,
+    "implies": lambda a, b: (not a) or bool(b), "iff": lambda a, b: bool(a) == bool(b),
+    "forall": lambda lo, hi, body, name="q": all(bool(body(q)) for q in range(lo, hi)),
+    "exists": lambda lo, hi, body, name="q": any(bool(body(q)) for q in range(lo, hi)),
+    "real": _fr, "toint": lambda x: _math.floor(_fr(x)), "floor": lambda x: _math.floor(_fr(x)),
+    "is_int": lambda x: _fr(x) == _math.floor(_fr(x)),
+    "rne": _crne, "rne_exact": _crne,
+    "sqrt": lambda x: _Fr(_math.sqrt(float(x))), "sin": lambda x: _Fr(_math.sin(float(x))),
+    "cos": lambda x: _Fr(_math.cos(float(x))), "atan2": lambda a, b: _Fr(_math.atan2(float(a), float(b))),
+    "fabs": lambda x: abs(_fr(x)), "abs_": abs, "min_": min, "max_": max,
+    "tdiv": _ctdiv, "tmod": lambda a, b: a - b * _ctdiv(a, b),
+    "INT_MAX": smt.INT_MAX, "INT_MIN": smt.INT_MIN, "pi": _Fr(_math.pi), "true": True, "false": False,
+    "rsum": _crsum, "count": lambda name, n, pred, lo=0: sum(1 for q in range(lo, n) if pred(q)),
+    "reveal": lambda *a: True,
+}
+
+
+def sym_or_conc(name):
+    """dispatcher used by spec functions: the symbolic or the concrete interpretation of a base operation"""
+    def f(*a):
+        return (CONC_NS if MODE == "conc" else BASE_NS)[name](*a)
+    return f
+
+
+rne = sym_or_conc("rne")
+ite = sym_or_conc("ite")
+rdiv = sym_or_conc("rdiv_")
+sqrt_ = sym_or_conc("sqrt")
 
 
 # ------------------------------------------------- recursive spec functions
@@ -258,6 +356,8 @@ def opaque(name, fn, sort="real"):
     """spec function hidden behind an uninterpreted symbol; its definition is revealed only at the
     argument tuples it is applied to (instances go to the axiom sink)."""
     def call(*args):
+        if MODE == "conc":
+            return fn(*args)
         zargs = []
         for a in args:
             if hasattr(a, "ptr") and hasattr(a, "state"):      # ArrView: underlying array + offset
@@ -287,4 +387,9 @@ def opaque(name, fn, sort="real"):
 
 BASE_NS["rsum"] = rsum
 BASE_NS["reveal"] = lambda *a: z3.BoolVal(True)
+
+
+def register_spec(**fns):
+    BASE_NS.update(fns)
+    CONC_NS.update(fns)
 BASE_NS["count"] = count
